@@ -53,6 +53,8 @@ def run(ctx):
                           CommitChoices=BIG, MaxSteps=8, Versioning="TRUE", UseIndex="TRUE", Keys='{"k1"}')
         _vlog.model_check(ctx, "l3", _vlog.SCENARIO_INVS, NLevels=3, MaxCompactions=2, CommitChoices=BIG, MaxSteps=8)
         _vlog.model_check(ctx, "vers", _vlog.SCENARIO_INVS, Versioning="TRUE", Finite="TRUE", CommitChoices=BIG, MaxSteps=8)
+        _vlog.model_check(ctx, "versidx", _vlog.SCENARIO_INVS, Versioning="TRUE", Finite="TRUE", UseIndex="TRUE", Keys='{"k1"}',
+                          CommitChoices=BIG, MaxSteps=9, MaxReopens=1)
         _vlog.model_check(ctx, "reopen", _vlog.SCENARIO_INVS, MaxReopens=1, CommitChoices=BIG, MaxSteps=8)
     # ---- 2. spec -> impl: edge cover of the state graph replayed on a real Tree ------------------------------------
     _vlog.export_and_replay(ctx, "base", ["--thr", "64", "--filecap", "1", "--plan", str(ctx.seed)],
@@ -67,8 +69,10 @@ def run(ctx):
                             cex=("CexHistCursor", "HistCursorIntact", "pinned_history_value_error"), Versioning="TRUE",
                             Finite="TRUE", CommitChoices='{"SetB"}', Keys='{"k1"}', CursorKinds='{"range", "hist"}',
                             MaxCommits=2, MaxSteps=10)
-    _vlog.export_and_replay(ctx, "idx", ["--versioning", "--index", "--plan", str(ctx.seed)], Versioning="TRUE",
-                            UseIndex="TRUE", CommitChoices=BIG, MaxSteps=ctx.pick(5, 7), MaxReopens=1)
+    # versioned index: its entries outlive the tables' (compaction does not touch it); clean-up must drop them with the files
+    _vlog.export_and_replay(ctx, "idx", ["--versioning", "--finite", "--index", "--plan", str(ctx.seed)], Versioning="TRUE",
+                            Finite="TRUE", UseIndex="TRUE", Keys='{"k1"}', CommitChoices=ctx.pick('{"SetB"}', BIG), MaxCommits=ctx.pick(2, 3),
+                            MaxSteps=ctx.pick(8, 9), MaxReopens=1)
     if not q:
         _vlog.export_and_replay(ctx, "cap0", ["--thr", "4096", "--filecap", "0", "--plan", str(ctx.seed), "--cache", "1048576"],
                                 FileCap=99, CommitChoices=ALL, MaxSteps=6)
@@ -80,14 +84,14 @@ def run(ctx):
                                 CommitChoices=ALL, CursorKinds='{"range", "hist"}', MaxSteps=6)
     # long random behaviours of the same spec: every prefix is a scenario
     _vlog.export_and_replay(ctx, "sim", ["--thr", "64", "--filecap", "1", "--levels", "3", "--plan", str(ctx.seed)],
-                            sim=ctx.pick(60, 1500), depth=ctx.pick(16, 20), NLevels=3, FileCap=1, TwoPhase="TRUE",
-                            CommitChoices=ALL, MaxCommits=6, MaxFlushes=4, MaxCompactions=4, MaxReopens=1, MaxSteps=ctx.pick(16, 20))
+                            sim=ctx.pick(60, 500), depth=ctx.pick(16, 18), NLevels=3, FileCap=1, TwoPhase="TRUE",
+                            CommitChoices=ALL, MaxCommits=6, MaxFlushes=4, MaxCompactions=4, MaxReopens=1, MaxSteps=ctx.pick(16, 18))
     _vlog.export_and_replay(ctx, "simv", ["--versioning", "--finite", "--filecap", "2", "--plan", str(ctx.seed)],
-                            sim=ctx.pick(40, 1000), depth=ctx.pick(16, 20), Versioning="TRUE", Finite="TRUE", FileCap=2,
+                            sim=ctx.pick(40, 350), depth=ctx.pick(16, 18), Versioning="TRUE", Finite="TRUE", FileCap=2,
                             CommitChoices=ALL, CursorKinds='{"range"}', MaxCommits=5, MaxFlushes=4, MaxCompactions=3,
-                            MaxSteps=ctx.pick(16, 20))
+                            MaxSteps=ctx.pick(16, 18))
     # ---- 3. crash images of recorded workloads, and the recorded operations against the trace spec -------------------
-    results, tot = _vlog.run_sweep(ctx, ctx.pick(6, 36), ctx.pick(40, 260))
+    results, tot = _vlog.run_sweep(ctx, ctx.pick(6, 30), ctx.pick(40, 220))
     refused = sum(1 for r in results for v in r["violations"] if v["class"] == "reopen_refused" and v.get("torn_header"))
     ctx.cov["crash_sweep"]["refused_with_torn_header"] = refused
     if n_torn and not refused:
